@@ -53,3 +53,238 @@ Proof.
 Qed.
 Lemma chebT_cos' t k : chebT OR (cos t) k = cos (INR k * t).
 Proof. apply chebT_cos. Qed.
+
+(* ---------------------------------------------------------------- multiples of pi *)
+Lemma sin_nPI k : sin (INR k * PI) = 0.
+Proof.
+  induction k; [cbn [INR]; now rewrite Rmult_0_l, sin_0|].
+  rewrite S_INR. replace ((INR k + 1) * PI) with (INR k * PI + PI) by ring. rewrite neg_sin, IHk. ring.
+Qed.
+Lemma pm_R k : pm OR k = cos (INR k * PI).
+Proof.
+  induction k; [unfold pm; cbn [Nat.even INR]; ror; now rewrite Rmult_0_l, cos_0|].
+  rewrite S_INR. replace ((INR k + 1) * PI) with (INR k * PI + PI) by ring. rewrite neg_cos, <- IHk.
+  unfold pm. rewrite Nat.even_succ, <- Nat.negb_even. unfold fm1. destruct (Nat.even k); cbn [negb]; ror; ring.
+Qed.
+Lemma cos_2nPI k : cos (INR k * (2 * PI)) = 1.
+Proof.
+  replace (INR k * (2 * PI)) with (0 + 2 * INR k * PI) by ring. rewrite cos_period. apply cos_0.
+Qed.
+Lemma sin_rPI_ne0 r : -1 < r < 1 -> r <> 0 -> sin (r * PI) <> 0.
+Proof.
+  intros [A B] C. pose proof PI_RGT_0 as HP. destruct (Rlt_dec 0 r) as [Hr|Hr].
+  - assert (0 < sin (r * PI)); [apply sin_gt_0; nra | lra].
+  - assert (0 < sin (- r * PI)); [apply sin_gt_0; nra |].
+    replace (- r * PI) with (- (r * PI)) in H by ring. rewrite sin_neg in H. lra.
+Qed.
+
+(* ---------------------------------------------------------------- the telescoping cosine sum *)
+Lemma two_sin_cos h t : 2 * sin h * cos t = sin (t + h) - sin (t - h).
+Proof. rewrite sin_plus, sin_minus. ring. Qed.
+Lemma cos_tele th : forall n,
+  2 * sin (th / 2) * rsum n (fun j => cos (INR j * th)) = sin ((INR n - / 2) * th) + sin (th / 2).
+Proof.
+  induction n.
+  - cbn [bsum INR]. ror. replace ((0 - / 2) * th) with (- (th / 2)) by field. rewrite sin_neg. ring.
+  - rewrite rsum_S, Rmult_plus_distr_l, IHn, two_sin_cos, S_INR.
+    replace (INR n * th + th / 2) with ((INR n + 1 - / 2) * th) by field.
+    replace (INR n * th - th / 2) with ((INR n - / 2) * th) by field. ring.
+Qed.
+
+(* end weights of the trapezoid-like sum: 1 at j = 0 and j = N, 2 in between  (this is 2 * Sum'') *)
+Definition ee (N j : nat) : R := if Nat.eqb j O then 1 else if Nat.eqb j N then 1 else 2.
+Lemma ends_sum N g : (1 <= N)%nat -> rsum (S N) (fun j => ee N j * g j) = 2 * rsum (S N) g - g O - g N.
+Proof.
+  intros HN. destruct N as [|p]; [lia|].
+  rewrite (rsum_S (S p) g), (rsum_S (S p) (fun j => ee (S p) j * g j)). rewrite !(bsum_S_l OR OR_rng). ror.
+  rewrite (rsum_ext p (fun i => ee (S p) (S i) * g (S i)) (fun i => 2 * g (S i))).
+  2:{ intros i Hi. unfold ee. cbn [Nat.eqb]. destruct (Nat.eqb_spec i p); [lia|reflexivity]. }
+  rewrite rsum_scal. unfold ee. cbn [Nat.eqb]. rewrite Nat.eqb_refl. ring.
+Qed.
+Definition EE (N : nat) (th : R) : R := rsum (S N) (fun j => ee N j * cos (INR j * th)).
+Lemma EE_sin N th : (1 <= N)%nat -> 2 * sin (th / 2) * EE N th = 2 * sin (INR N * th) * cos (th / 2).
+Proof.
+  intros HN. unfold EE. rewrite ends_sum by auto.
+  transitivity (2 * (2 * sin (th / 2) * rsum (S N) (fun j => cos (INR j * th)))
+                - 2 * sin (th / 2) * cos (INR 0 * th) - 2 * sin (th / 2) * cos (INR N * th)); [ring|].
+  rewrite cos_tele, S_INR. cbn [INR]. rewrite Rmult_0_l, cos_0.
+  replace ((INR N + 1 - / 2) * th) with (INR N * th + th / 2) by field. rewrite sin_plus. ring.
+Qed.
+Lemma EE_zero N th : (1 <= N)%nat -> sin (INR N * th) = 0 -> sin (th / 2) <> 0 -> EE N th = 0.
+Proof.
+  intros HN H0 H1. pose proof (EE_sin N th HN) as E. rewrite H0 in E.
+  assert (sin (th / 2) * EE N th = 0) by lra. apply Rmult_integral in H. tauto.
+Qed.
+Lemma EE_full N th : (1 <= N)%nat -> (forall j, cos (INR j * th) = 1) -> EE N th = 2 * INR N.
+Proof.
+  intros HN H. unfold EE. rewrite ends_sum by auto. rewrite !H.
+  rewrite (rsum_ext (S N) _ (fun _ => 1)) by (intros; apply H). rewrite rsum_const1, S_INR. ring.
+Qed.
+
+(* ---------------------------------------------------------------- DCT-I orthogonality, all N >= 1 *)
+Definition ang (N k : nat) : R := PI * INR k / INR N.
+Definition SS2 (N a b : nat) : R := rsum (S N) (fun j => ee N j * (cos (INR j * ang N a) * cos (INR j * ang N b))).
+Lemma SS2_EE N a b : SS2 N a b = (EE N (ang N a - ang N b) + EE N (ang N a + ang N b)) / 2.
+Proof.
+  unfold SS2, EE. unfold Rdiv. rewrite <- rsum_plus. rewrite Rmult_comm, <- rsum_scal. apply rsum_ext; intros j Hj.
+  cbv beta. replace (INR j * (ang N a - ang N b)) with (INR j * ang N a - INR j * ang N b) by ring.
+  replace (INR j * (ang N a + ang N b)) with (INR j * ang N a + INR j * ang N b) by ring.
+  rewrite cos_minus, cos_plus. field.
+Qed.
+Lemma INR_N_pos N : (1 <= N)%nat -> 0 < INR N.
+Proof. intros H. apply lt_0_INR. lia. Qed.
+(* 2 * Sum''_{j=0..N} cos(pi j a/N) cos(pi j b/N)  =  0 (a<>b),  N (a=b interior),  2N (a=b in {0,N}) *)
+Theorem dct_orthogonal N a b : (1 <= N)%nat -> (a <= N)%nat -> (b <= N)%nat ->
+  SS2 N a b = if Nat.eqb a b then (if Nat.eqb a O || Nat.eqb a N then 2 * INR N else INR N) else 0.
+Proof.
+  intros HN Ha Hb. pose proof (INR_N_pos N HN) as HP. pose proof PI_RGT_0 as Hpi.
+  assert (Ia : 0 <= INR a <= INR N) by (split; [apply pos_INR | apply le_INR; auto]).
+  assert (Ib : 0 <= INR b <= INR N) by (split; [apply pos_INR | apply le_INR; auto]).
+  rewrite SS2_EE. destruct (Nat.eqb_spec a b) as [->|Hne].
+  - replace (ang N b - ang N b) with 0 by ring.
+    rewrite (EE_full N 0) by (auto; intros; now rewrite Rmult_0_r, cos_0).
+    destruct (Nat.eqb_spec b O) as [->|H0]; [|destruct (Nat.eqb_spec b N) as [->|H1]]; cbn [orb].
+    + unfold ang. cbn [INR]. replace (PI * 0 / INR N + PI * 0 / INR N) with 0 by (field; lra).
+      rewrite (EE_full N 0) by (auto; intros; now rewrite Rmult_0_r, cos_0). field.
+    + replace (ang N N + ang N N) with (2 * PI) by (unfold ang; field; lra).
+      rewrite (EE_full N (2 * PI)) by (auto; intros; apply cos_2nPI). field.
+    + rewrite EE_zero; [field | auto | |].
+      * replace (INR N * (ang N b + ang N b)) with (INR (2 * b) * PI) by (rewrite mult_INR; unfold ang; cbn [INR]; field; lra).
+        apply sin_nPI.
+      * replace ((ang N b + ang N b) / 2) with (INR b / INR N * PI) by (unfold ang; field; lra).
+        assert (0 < INR b) by (apply lt_0_INR; lia). assert (INR b < INR N) by (apply lt_INR; lia).
+        assert (E : INR b / INR N * INR N = INR b) by (field; lra).
+        apply sin_rPI_ne0; [split; nra | nra].
+  - assert (Hd : INR a <> INR b) by (intros E; apply INR_eq in E; auto).
+    rewrite !EE_zero; [field | auto | | | auto | |].
+    + replace (INR N * (ang N a + ang N b)) with (INR (a + b) * PI) by (rewrite plus_INR; unfold ang; field; lra).
+      apply sin_nPI.
+    + replace ((ang N a + ang N b) / 2) with ((INR a + INR b) / (2 * INR N) * PI) by (unfold ang; field; lra).
+      assert (E : (INR a + INR b) / (2 * INR N) * (2 * INR N) = INR a + INR b) by (field; lra).
+      assert (0 < INR a + INR b).
+      { destruct a, b; try lia; rewrite ?S_INR in *; cbn [INR] in *; lra. }
+      assert (INR a + INR b < 2 * INR N).
+      { assert (a + b < 2 * N)%nat by lia. apply lt_INR in H0. rewrite plus_INR, mult_INR in H0. cbn [INR] in H0. lra. }
+      apply sin_rPI_ne0; [split; nra | nra].
+    + replace (INR N * (ang N a - ang N b)) with (INR a * PI - INR b * PI) by (unfold ang; field; lra).
+      rewrite sin_minus, !sin_nPI. ring.
+    + replace ((ang N a - ang N b) / 2) with ((INR a - INR b) / (2 * INR N) * PI) by (unfold ang; field; lra).
+      assert (E : (INR a - INR b) / (2 * INR N) * (2 * INR N) = INR a - INR b) by (field; lra).
+      apply sin_rPI_ne0; [split; nra | nra].
+Qed.
+
+(* ---------------------------------------------------------------- DST-I orthogonality, all M >= 1 *)
+Definition SSs (M a b : nat) : R := rsum (S M) (fun j => ee M j * (sin (INR j * ang M a) * sin (INR j * ang M b))).
+Lemma rsum_minus n f g : rsum n (fun i => f i - g i) = rsum n f - rsum n g.
+Proof. apply (bsum_sub OR OR_rng). Qed.
+Lemma SSs_EE M a b : SSs M a b = (EE M (ang M a - ang M b) - EE M (ang M a + ang M b)) / 2.
+Proof.
+  unfold SSs, EE. unfold Rdiv. rewrite <- rsum_minus. rewrite Rmult_comm, <- rsum_scal. apply rsum_ext; intros j Hj.
+  cbv beta. replace (INR j * (ang M a - ang M b)) with (INR j * ang M a - INR j * ang M b) by ring.
+  replace (INR j * (ang M a + ang M b)) with (INR j * ang M a + INR j * ang M b) by ring.
+  rewrite cos_minus, cos_plus. field.
+Qed.
+(* 2 * Sum_{j=1..M-1} sin(pi j a/M) sin(pi j b/M) = M (a = b), 0 (a <> b), for 1 <= a, b <= M-1 *)
+Theorem dst_orthogonal M a b : (1 <= a < M)%nat -> (1 <= b < M)%nat ->
+  SSs M a b = if Nat.eqb a b then INR M else 0.
+Proof.
+  intros Ha Hb. assert (HN : (1 <= M)%nat) by lia. pose proof (INR_N_pos M HN) as HP. pose proof PI_RGT_0 as Hpi.
+  assert (Ia : 0 < INR a < INR M) by (split; [apply lt_0_INR | apply lt_INR]; lia).
+  assert (Ib : 0 < INR b < INR M) by (split; [apply lt_0_INR | apply lt_INR]; lia).
+  rewrite SSs_EE. destruct (Nat.eqb_spec a b) as [->|Hne].
+  - replace (ang M b - ang M b) with 0 by ring.
+    rewrite (EE_full M 0) by (auto; intros; now rewrite Rmult_0_r, cos_0).
+    rewrite EE_zero; [field | auto | |].
+    + replace (INR M * (ang M b + ang M b)) with (INR (2 * b) * PI) by (rewrite mult_INR; unfold ang; cbn [INR]; field; lra).
+      apply sin_nPI.
+    + replace ((ang M b + ang M b) / 2) with (INR b / INR M * PI) by (unfold ang; field; lra).
+      assert (E : INR b / INR M * INR M = INR b) by (field; lra).
+      apply sin_rPI_ne0; [split; nra | nra].
+  - assert (Hd : INR a <> INR b) by (intros E; apply INR_eq in E; auto).
+    rewrite !EE_zero; [field | auto | | | auto | |].
+    + replace (INR M * (ang M a + ang M b)) with (INR (a + b) * PI) by (rewrite plus_INR; unfold ang; field; lra).
+      apply sin_nPI.
+    + replace ((ang M a + ang M b) / 2) with ((INR a + INR b) / (2 * INR M) * PI) by (unfold ang; field; lra).
+      assert (E : (INR a + INR b) / (2 * INR M) * (2 * INR M) = INR a + INR b) by (field; lra).
+      apply sin_rPI_ne0; [split; nra | nra].
+    + replace (INR M * (ang M a - ang M b)) with (INR a * PI - INR b * PI) by (unfold ang; field; lra).
+      rewrite sin_minus, !sin_nPI. ring.
+    + replace ((ang M a - ang M b) / 2) with ((INR a - INR b) / (2 * INR M) * PI) by (unfold ang; field; lra).
+      assert (E : (INR a - INR b) / (2 * INR M) * (2 * INR M) = INR a - INR b) by (field; lra).
+      apply sin_rPI_ne0; [split; nra | nra].
+Qed.
+
+(* ---------------------------------------------------------------- the model's matrices at R *)
+Lemma Hdiv_R : forall x y : R, odiv OR x y = omul OR x (odiv OR (o1 OR) y).
+Proof. intros. ror. unfold Rdiv. ring. Qed.
+Lemma fnat_R n : fnat OR n = INR n.
+Proof. unfold fnat. ror. symmetry. apply INR_IZR_INZ. Qed.
+Lemma wd_R N k j : (1 <= N)%nat -> wd OR csR (S N) k j = ee N j * cos (INR j * ang N k).
+Proof.
+  intros HN. pose proof (INR_N_pos N HN) as HP. unfold wd, ee. replace (S N - 1)%nat with N by lia.
+  destruct (Nat.eqb_spec j O) as [->|H0].
+  - cbn [INR]. ror. rewrite Rmult_0_l, cos_0. ring.
+  - destruct (Nat.eqb_spec j N) as [->|H1].
+    + rewrite pm_R. replace (INR N * ang N k) with (INR k * PI) by (unfold ang; field; lra). ring.
+    + unfold ftwo, csR. ror. rewrite mult_INR. replace (PI * (INR j * INR k) / INR N) with (INR j * ang N k) by (unfold ang; field; lra).
+      ring.
+Qed.
+Lemma hfac_R N k : (1 <= N)%nat -> hfac OR (S N) k = ee N k / 2.
+Proof.
+  intros HN. unfold hfac, ee, ftwo. replace (S N - 1)%nat with N by lia. ror.
+  destruct (Nat.eqb_spec k O); destruct (Nat.eqb_spec k N); try lia; field.
+Qed.
+Lemma nodeU_R N j : (1 <= N)%nat -> nodeU OR csR (S N) j = cos (ang N j).
+Proof.
+  intros HN. unfold nodeU, ind_to_poi_cheb, fm1, ftwo, csR. replace (S N - 1)%nat with N by lia. ror. fold (ang N j). field.
+Qed.
+Lemma getsM_cheb_R N j m : (1 <= N)%nat -> getsM OR csR snR Cheb (S N) j m = cos (INR j * ang N m).
+Proof.
+  intros HN. pose proof (INR_N_pos N HN) as HP. unfold getsM. rewrite nodeU_R, chebT_cos' by auto. f_equal. unfold ang. field. lra.
+Qed.
+(* coefficient transform after sampling a Chebyshev polynomial: the identity (1-D) *)
+Lemma dmat_gets_R N k m : (1 <= N)%nat -> (k <= N)%nat -> (m <= N)%nat ->
+  rsum (S N) (fun j => dmat OR csR (S N) k j * getsM OR csR snR Cheb (S N) j m) = delta OR k m.
+Proof.
+  intros HN Hk Hm. pose proof (INR_N_pos N HN) as HP.
+  rewrite (rsum_ext (S N) _ (fun j => (1 / INR N * (ee N k / 2)) * (ee N j * (cos (INR j * ang N k) * cos (INR j * ang N m))))).
+  2:{ intros j Hj. unfold dmat. rewrite wd_R, getsM_cheb_R, hfac_R by auto. replace (S N - 1)%nat with N by lia.
+      rewrite fnat_R. ror. ring. }
+  rewrite rsum_scal. fold (SS2 N k m). rewrite dct_orthogonal by auto. unfold delta, ee. ror.
+  destruct (Nat.eqb_spec k m); [|field; lra].
+  destruct (Nat.eqb_spec k O); destruct (Nat.eqb_spec k N); try lia; cbn [orb]; field; lra.
+Qed.
+(* sampling after the coefficient transform: the identity (1-D) *)
+Lemma gets_dmat_R N j i : (1 <= N)%nat -> (j <= N)%nat -> (i <= N)%nat ->
+  rsum (S N) (fun k => getsM OR csR snR Cheb (S N) j k * dmat OR csR (S N) k i) = delta OR j i.
+Proof.
+  intros HN Hj Hi. pose proof (INR_N_pos N HN) as HP.
+  rewrite (rsum_ext (S N) _ (fun k => (1 / INR N * (ee N i / 2)) * (ee N k * (cos (INR k * ang N j) * cos (INR k * ang N i))))).
+  2:{ intros k Hk. unfold dmat. rewrite wd_R, getsM_cheb_R, hfac_R by auto. replace (S N - 1)%nat with N by lia.
+      rewrite fnat_R. ror. replace (INR j * ang N k) with (INR k * ang N j) by (unfold ang; field; lra).
+      replace (INR i * ang N k) with (INR k * ang N i) by (unfold ang; field; lra). unfold Rdiv. ring. }
+  rewrite rsum_scal. fold (SS2 N j i). rewrite dct_orthogonal by auto. unfold delta, ee. ror.
+  destruct (Nat.eqb_spec j i) as [->|]; [|field; lra].
+  destruct (Nat.eqb_spec i O); destruct (Nat.eqb_spec i N); try lia; cbn [orb]; field; lra.
+Qed.
+(* sine kind: sampling on the same grid after the DST-I coefficient transform is the identity (1-D) *)
+Lemma gets_smat_R n j l : (j < n)%nat -> (l < n)%nat ->
+  rsum n (fun i => getsM OR csR snR Sin n j i * smat OR snR n i l) = delta OR j l.
+Proof.
+  intros Hj Hl. set (M := S n). assert (HM : (1 <= M)%nat) by (unfold M; lia). pose proof (INR_N_pos M HM) as HP.
+  assert (E : rsum n (fun i => 2 * (sin (INR (S i) * ang M (S j)) * sin (INR (S i) * ang M (S l)))) = SSs M (S j) (S l)).
+  { unfold SSs. rewrite (rsum_S (S n)). rewrite (bsum_S_l OR OR_rng). ror. fold M.
+    change (INR O) with 0. rewrite !Rmult_0_l, sin_0.
+    replace (INR M * ang M (S j)) with (INR (S j) * PI) by (unfold ang; field; lra). rewrite sin_nPI.
+    rewrite (rsum_ext n (fun i => ee M (S i) * _) (fun i => 2 * (sin (INR (S i) * ang M (S j)) * sin (INR (S i) * ang M (S l))))).
+    2:{ intros i Hi. unfold ee. change (Nat.eqb (S i) O) with false. cbv iota.
+        destruct (Nat.eqb_spec (S i) M); [unfold M in *; lia|reflexivity]. }
+    ring. }
+  rewrite (rsum_ext n _ (fun i => (1 / INR M) * (2 * (sin (INR (S i) * ang M (S j)) * sin (INR (S i) * ang M (S l)))))).
+  2:{ intros i Hi. unfold getsM, smat, snR, ftwo. rewrite fnat_R. replace (n + 1)%nat with M by (unfold M; lia). ror.
+      rewrite !mult_INR. replace (j + 1)%nat with (S j) by lia. replace (i + 1)%nat with (S i) by lia. replace (l + 1)%nat with (S l) by lia.
+      replace (PI * (INR (S j) * INR (S i)) / INR M) with (INR (S i) * ang M (S j)) by (unfold ang; field; lra).
+      replace (PI * (INR (S i) * INR (S l)) / INR M) with (INR (S i) * ang M (S l)) by (unfold ang; field; lra). ring. }
+  rewrite rsum_scal, E, dst_orthogonal by (unfold M; lia). unfold delta. cbn [Nat.eqb]. ror.
+  destruct (Nat.eqb_spec j l); field; lra.
+Qed.
